@@ -96,6 +96,7 @@ type scn struct {
 	Auth        int    `json:"auth"`        // 0 none 1 ok 2 fails
 	AuthGetBody int    `json:"auth_get_body"`
 	AuthFailPos int    `json:"auth_fail_pos"` // 0 before GetBody, 1 after
+	AuthInspect bool   `json:"auth_inspect"`  // the auth writer looks at everything the request offers first
 	BadURL      int    `json:"bad_url"`       // 0 none 1 pattern 2 base path 3 method
 	Method      string `json:"method"`
 
@@ -207,6 +208,7 @@ func generate(t *kernel.Tape) *scn {
 	s.CancelStep = t.Choose(41, "cancel-step") // 0: the caller's context is already cancelled when Submit is called
 	s.Reuse = t.Bool(2, "reuse")
 	s.Debug = t.Bool(8, "debug-mode")
+	s.AuthInspect = t.Bool(3, "auth-writer-inspects-the-request")
 	s.SrcErrKind = t.Weighted("source-error-value", 3, 1, 1, 1, 1, 1)
 	s.SrcErrOnce = t.Bool(3, "source-error-reported-once")
 	s.AdvanceIn = []int{0, 6, 12, 3}[t.Choose(4, "advance-in")]
@@ -411,6 +413,9 @@ func (w *world) AuthenticateRequest(req runtime.ClientRequest, _ strfmt.Registry
 		w.env.Fault("auth-error-before-getbody")
 		w.constructionErr = true
 		return &kernel.InjectedError{What: "auth writer failed"}
+	}
+	if s.AuthInspect {
+		simhttp.Inspect(req)
 	}
 	for i := 0; i < s.AuthGetBody; i++ {
 		b := req.GetBody()
